@@ -4,6 +4,7 @@ EXTENDS Prepare
 
 A1 == [s |-> "A", n |-> 1]
 A2 == [s |-> "A", n |-> 2]      \* wrong number of values for A
+A0 == [s |-> "A", n |-> 0]      \* no values at all for a statement with a bind marker
 B2 == [s |-> "B", n |-> 2]
 c11 == <<"h1", "k1">>
 c21 == <<"h2", "k1">>            \* other host, same keyspace
@@ -23,6 +24,7 @@ PlansCore == {P3(Q(c11, A1), Q(c11, A1), Q(c11, A1)),
               P3(Q(c11, A1), Q(c21, A1), Q(c11, A1)),
               P3(Q(c11, A1), Q(c12, A1), Q(c11, B2))}
 PlansMore == {P3(Q(c11, A1), Q(c11, A2), Q(c11, B2)),
+              P3(Q(c11, A1), Q(c11, A0), Q(c11, B2)),
               P3(Bt(c11, <<A1, B2>>), Q(c11, A1), Q(c11, B2)),
               P3(Bt(c11, <<A1, B2>>), Bt(c11, <<B2, A1>>), Q(c11, A1))}
 PlansAll == PlansCore \cup PlansMore
@@ -33,6 +35,7 @@ PL2 == {P3(Q(c11, A1), Q(c11, A1), Q(c11, B2))}
 PL3 == {P3(Q(c11, A1), Q(c21, A1), Q(c11, A1))}
 PL4 == {P3(Q(c11, A1), Q(c12, A1), Q(c11, B2))}
 PL5 == {P3(Q(c11, A1), Q(c11, A2), Q(c11, B2))}
+PL8 == {P3(Q(c11, A1), Q(c11, A0), Q(c11, B2))}
 PL6 == {P3(Bt(c11, <<A1, B2>>), Q(c11, A1), Q(c11, B2))}
 PL7 == {P3(Bt(c11, <<A1, B2>>), Bt(c11, <<B2, A1>>), Q(c11, A1))}
 E4 == {"e1", "e2", "e3", "e4"}
